@@ -235,9 +235,9 @@ def generate(rng, tier):
             elif c['form'] == 'int':
                 c['form'] = 'list'
         t = rng.random()
-        if t < 0.04:
-            c['args'].insert(rng.randint(0, len(c['args'])), rng.choice(['furlong', 'jy', 'mm', 'photnu', '']))
-        elif t < 0.08 and vu is None:
+        if t < 0.07:
+            c['args'].insert(rng.randint(0, len(c['args'])), rng.choice(['furlong', 'jy', 'mm', 'photnu', '', 'none', 'hz']))
+        elif t < 0.16 and vu is None:
             c['args'].insert(rng.randint(0, len(c['args'])), rcase(rng, rng.choice(FNAMES)))
         yield c
     # -- Spectrum.sample in another wave unit: all 16 wave-unit pairs x {None, photlam, flam, wlam}
@@ -425,6 +425,21 @@ def brief(sc):
     return sc['op']
 
 
+def first_refused(c):
+    """index of the first argument of a chain that Spectrum.to must refuse, or None"""
+    vu = fcanon(c['vu']) if c['vu'] else None
+    for k, a in enumerate(c['args']):
+        if code(a) == 10 or (vu is None and fcanon(a)):
+            return k
+        if fcanon(a):
+            vu = fcanon(a)
+    return None
+
+
+def same_state(p, q, tol=TOL):
+    return (p['wu'], p['vu']) == (q['wu'], q['vu']) and lclose(p['wave'], q['wave'], tol) and lclose(p['value'], q['value'], tol)
+
+
 def classify(c):
     op = c['op']
     if op == 'chain':
@@ -503,7 +518,7 @@ def encode(c):
     if op == 'chain':
         wu = WSHORT.index(wcanon(c['wu']))
         vu = [0] if c['vu'] is None else [1, FNAMES.index(fcanon(c['vu']))]
-        return ([3, wu] + vu + C.enc_list(c['wave'], C.enc_q) + C.enc_list(c['value'], C.enc_q) + enc_names(c['args']))
+        return ([8, wu] + vu + C.enc_list(c['wave'], C.enc_q) + C.enc_list(c['value'], C.enc_q) + enc_names(c['args']))
     if op == 'planck':
         x = planck_x(c['wave'], c['temp'], c['wn'])
         tab = exp_table([x]) if x is not None else []
@@ -541,7 +556,13 @@ def decode(c, ints):
     op = c['op']
     if op in ('factor', 'factor3', 'flux3', 'planck'):
         return {'v': rd.q()}
-    if op in ('chain', 'blackbody'):
+    if op == 'chain':          # op 8: the object after the call and the exception, if any
+        sp = dec_spec(rd)
+        e = rd.opt(rd.z)
+        if e is not None:
+            return {'err': C.ERRNAMES[e], 'state': sp}
+        return sp
+    if op == 'blackbody':
         return dec_spec(rd)
     if op == 'sample':
         return {'values': rd.lst(rd.q)}
@@ -644,6 +665,20 @@ def run_impl(c):
             return {'v': float(ab), 'bc': float(R.Unit(b).to(ab, cc, w)), 'ac': float(R.Unit(a).to(f, cc, w)),
                     'ba': float(R.Unit(b).to(ab, a, w)), 'aa': float(R.Unit(a).to(f, a, w))}
         if op == 'chain':
+            k = first_refused(c)
+            if k is not None:
+                # a refused call: the exception and what the object holds afterwards, against an object that was
+                # only given the accepted arguments before the refused one
+                s2 = R.Spectrum(arr(c['wave'], c.get('form')), arr(c['value'], c.get('form')), c['wu'], c['vu'])
+                try:
+                    s2.to(*c['args'])
+                    return {'state': snap(s2), 'accepted': True}
+                except Exception as e:
+                    err = type(e).__name__
+                s4 = R.Spectrum(arr(c['wave'], c.get('form')), arr(c['value'], c.get('form')), c['wu'], c['vu'])
+                s4.to(*c['args'][:k])
+                s5 = R.Spectrum(arr(c['wave'], c.get('form')), arr(c['value'], c.get('form')), c['wu'], c['vu'])
+                return {'err': err, 'state': snap(s2), 'prefix': snap(s4), 'initial': snap(s5)}
             s = R.Spectrum(arr(c['wave'], c.get('form')), arr(c['value'], c.get('form')), c['wu'], c['vu'])
             steps = [snap(s)]
             for a in c['args']:
@@ -807,7 +842,15 @@ def compare(c, impl, model):
     if ('err' in impl) != ('err' in model):
         return f'implementation {impl.get("err", "returned a value")}, model {model.get("err", "returned a value")}'
     if 'err' in impl:
-        return None if impl['err'] == model['err'] else f'error kinds differ: impl {impl["err"]} model {model["err"]}'
+        if impl['err'] != model['err']:
+            return f'error kinds differ: impl {impl["err"]} model {model["err"]}'
+        # an implementation that refuses the whole call before converting anything (object left as it was) is as
+        # good for C14 as the present one (object left with the accepted conversions): both are accepted
+        if (c['op'] == 'chain' and 'state' in impl and 'state' in model and not same_state(impl['state'], model['state'])
+                and not same_state(impl['state'], impl['initial'], 0.0)):
+            return (f'after the refused call to{tuple(c["args"])} the object holds {impl["state"]}, '
+                    f'the model {dict(model["state"], wave=[float(x) for x in model["state"]["wave"]], value=[float(x) for x in model["state"]["value"]], integral=float(model["state"]["integral"]))}')
+        return None
     op = c['op']
     if op == 'sample':
         scale = max([abs(v) for v in c['value']] + [0.0]) * (truth_factor(wcanon(c['wb']), wcanon(c['wu'])) if c['vu'] else 1.0)
@@ -923,7 +966,14 @@ def oracle(c, impl):
             if fcanon(a):
                 vu = fcanon(a)
         if bad:
-            return expect_refusal(impl, bad)
+            m = expect_refusal(impl, bad)
+            if m:
+                return m
+            k = first_refused(c)
+            if not same_state(impl['state'], impl['prefix'], 0.0) and not same_state(impl['state'], impl['initial'], 0.0):
+                return (f'{bad}: after the refused call to{tuple(c["args"])} the object holds {impl["state"]}; that is neither the object '
+                        f'with only the accepted arguments {c["args"][:k]} applied ({impl["prefix"]}) nor the untouched object')
+            return None
         if 'err' in impl:
             return f'Spectrum.to{tuple(c["args"])} raised {impl["err"]}'
         steps = impl['steps']
